@@ -2193,13 +2193,18 @@ def c09_cases(names_builtin, names_other, rng, full):
                             forms += [("%s %s 3" % (n, n), "I3"), ("%s((3))" % n, "I3"), ("%s /* c */ (3)" % n, "I3"), ("%s\n3" % n, "I3"),
                                       ("%s(true, 3, 4)" % n, "T(B1,I3,I4)"), ("%s((false, 3, 4))" % n, "T(B0,I3,I4)"), ('%s("a", "b", "c", "d")' % n, "T(S61,S62,S63,S64)")]
                             forms += [("%s !true" % n, None, "ERR AppendedToLeafNode"), ("%s - 1 !" % n, None, "ERR AppendedToLeafNode")]
+                            # a call binds tighter than `^`; a call inside a written-out tuple, through the typed tuple entry point of the tree
+                            forms += [("%s 2 ^ 3" % n, "I2", None, "pow3"), ("%s(2) ^ 3" % n, "I2", None, "pow3"), ("%s(3), 1" % n, "I3", None, "tuple")]
                             if kind in ("H", "N"):
                                 forms.append(("%s t1" % n, "T(I7)"))     # a one-element tuple is passed as it is
                                 forms.append(("%s(t1)" % n, "T(I7)"))
                             if kind in ("H", "N") and post not in ("clrf", "clone+clrf", "clone+clr"):
                                 forms.append(("wrap %s 3" % n, "I3"))
                             ops = list(setup)
-                            for src, *_ in forms:      # resolution is the same through the shared and the mutable entry points
+                            for src, *rest_ in forms:      # resolution is the same through the shared and the mutable entry points
+                                if len(rest_) == 3 and rest_[2] == "tuple":
+                                    ops.append("ev nrt " + hexs(src))
+                                    continue
                                 ops.append(rng.choice(["ev srv ", "ev srv ", "evc smv ", "evc nmv "] if kind in ("H", "N") else ["ev srv "]) + hexs(src))
                             ops.append("ev srv " + hexs(n))  # the bare name is a variable
                             if kind in ("E", "EB"):
@@ -2272,7 +2277,8 @@ def c09_post(cases, impl, model):
             continue
         log = out[out.index("LOG[") + 4:out.rindex("]")] if "LOG[" in out else ""
         for (src, arg, *fixed), got in zip(m["forms"], steps):
-            if fixed:
+            tag = fixed[1] if len(fixed) > 1 else None
+            if fixed and fixed[0] is not None:
                 if got != fixed[0]:
                     fails.append((i, "%r is no call form (the identifier is not followed by an operand): got %s, expected %s in context %s" % (src, got, fixed[0], m["ctx"])))
                     break
@@ -2296,6 +2302,10 @@ def c09_post(cases, impl, model):
                         want = None
             else:
                 want = "ERR FunctionIdentifierNotFound(%s)" % hexs(n)
+            if tag == "pow3" and m["user"] is True:
+                want = "OK F%016x" % f_bits(777.0 ** 3)
+            if tag == "tuple" and m["user"] is True:
+                want = "OK T(%s,I1)" % MARK
             if nested and want is not None and want.startswith("OK "):
                 pass  # wrap is the identity
             if want is not None and got != want:
@@ -2825,6 +2835,7 @@ def c07_gen(tier, rng):
             cases.append(("TREE\t" + hexs(ref), {"kind": "ws-ref", "src": ref}))
     for src, ref in (('1e-"3"', '1e - "3"'), ('2.5e+"7"', '2.5e + "7"'), ('a 1E-"0"', 'a 1E - "0"'), ('1e-(3)', '1e - (3)'), ('1e+true', '1e + true'), ('xe-3', 'xe - 3'),
                      ('price-tax', 'price - tax'), ('1e-3e', '1e - 3e'), ('(1e)-3', '( 1e ) - 3'),
+                     ('1e- 3', '1e - 3'), ('1e-/**/3', '1e - 3'), ('2.5E+\n7', '2.5E + 7'), ('1e-//c\n3', '1e - 3'), ('a 1e- 3', 'a 1e - 3'), ('1e +3', '1e + 3'),
                      ('-9223372036854775808', '- 9223372036854775808'), ('a * -9223372036854775808', 'a * - 9223372036854775808'), ('(-9223372036854775808)', '( - 9223372036854775808 )'),
                      ('-9223372036854775808 ^ 2', '- 9223372036854775808 ^ 2'), ('x = -09223372036854775808', 'x = - 09223372036854775808'), ('!-9223372036854775808', '! - 9223372036854775808'),
                      ('-9223372036854775807', '- 9223372036854775807'), ('-0x8000000000000000', '- 0x8000000000000000'), ('--9223372036854775808', '- - 9223372036854775808')):
@@ -2835,7 +2846,7 @@ def c07_gen(tier, rng):
         src = "a" + chr(w) + "b"
         cases.append(("TREE\t" + hexs(src), {"kind": "non-ws", "src": src, "want": "OK (RootNode (Read:%s))" % hexs(src)}))
     # unterminated inline comments; comment markers in strings
-    for src in ["1 /*", "1 + /* x", "/*/", "/* * /", "a /* b */ /* c", "1 /* \" */ + /* x"]:
+    for src in ["1 /*", "1 + /* x", "/*/", "/* * /", "a /* b */ /* c", "1 /* \" */ + /* x", "1 /**", "1 + 2 /* x *", "/*\n * doc\n *", "1 /***", "a /* b */ /* c *", "/* */ /*"]:
         cases.append(("TREE\t" + hexs(src), {"kind": "unterminated", "src": src, "want": "ERR CustomMessage(%s)" % hexs("unmatched inline comment")}))
     for t in ["//", "/* x */", "a // b", "/*"]:
         cases.append(("TREE\t" + hexs(quote(t)), {"kind": "in-string", "src": quote(t), "want": "OK (RootNode (Const:S%s))" % hexs(t)}))
@@ -2946,6 +2957,11 @@ def c01_gen(tier, rng):
         src = " ".join(seq)
         cases.append((G.script("H", C12_SETUP + ["evc build " + hexs(src), "evc smv " + hexs(src), "evc srv " + hexs(src)]), {"kind": "token-soup"}))
         cases.append(("ITER\t" + hexs(src), {"kind": "iter"}))
+    for s_ in ["0x8000000000000000", "0xffffffffffffffff", "0x10000000000000000", "0x" + "f" * 40, "1 + 0x8000000000000000", "0X8000000000000000",
+               "true &" + "ä" * 20, "1 |" + "€" * 15 + "x", "a &" + "𝄞" * 9 + "b", "&" + "é" * 31, "| " + "ä" * 40, "x & " + "ab" * 30, "true &a" + "ä" * 16]:
+        cases.append(("TOK\t" + hexs(s_), {"kind": "char-soup"}))
+        cases.append((G.script("H", C12_SETUP + ["evc build " + hexs(s_), "evc smv " + hexs(s_), "evc srv " + hexs(s_)]), {"kind": "token-soup"}))
+        cases.append(("SHOW\t" + hexs(s_), {"kind": "show"}))
     for s in G.char_soup(rng, n, maxlen=24):
         cases.append(("TOK\t" + hexs(s), {"kind": "char-soup"}))
         cases.append((G.script(rng.choice(["H", "N", "E", "EB"]), ["evc build " + hexs(s), "evc srv " + hexs(s)]), {"kind": "char-soup"}))
